@@ -264,7 +264,9 @@ def r2(ctx):
         for c in idx.calls_in(q):
             f = c.func
             if isinstance(f, ast.Attribute) and f.attr in ("recv", "recv_into", "read", "recvfrom") and text(f.value) in ("sock", "self.sock"):
-                if q not in ("_socket:recv", "_socket:recv._recv", "_handshake:_get_resp_headers") and not q.startswith("_handshake:"):
+                # the transport layer (_socket.py) owns raw reads -- its callers' request sizes are judged above; the handshake's
+                # bounded error-body read is judged by C10
+                if not q.startswith("_socket:") and not q.startswith("_handshake:"):
                     others.append((q, c))
     ctx.ob("package:direct-transport-reads", not others, "direct sock.recv only in _socket.recv and the handshake error-body read" if not others else
            f"{others[0][0]} reads from the transport directly ({text(others[0][1])}): its size is not covered by the rules above", idx.loc(others[0][1]) if others else "")
@@ -301,15 +303,51 @@ def r3(ctx):
         ctx.ob(f"{q}:every-iteration-consumes", bad is None and bool(outs), f"{len(outs)} paths" if bad is None else
                "a loop iteration neither reads from the transport nor leaves the loop: the call can spin on the same input", idx.loc(idx.func(q).node),
                {"path": path_text(bad)} if bad else None)
-    # recv_strict and the receive loop: one transport call / one frame per iteration
-    for q, callee in (("_abnf:frame_buffer.recv_strict", "self.recv"), ("_core:WebSocket.recv_data_frame", "self.recv_frame")):
-        fn = idx.func(q).node
-        loops = [n for n in idx.own_nodes(fn) if isinstance(n, ast.While)]
-        ok = bool(loops)
-        for lp in loops:
-            first_calls = [text(c.func) for st in lp.body[:1] for c in ast.walk(st) if isinstance(c, ast.Call)]
-            ok = ok and callee in first_calls
-        ctx.ob(f"{q}:loop-starts-with-a-read", ok, f"each iteration begins with {callee}(...)" if ok else f"a loop in {q} does not begin with {callee}(...)", idx.loc(fn))
+    # recv_strict: every iteration reads from the transport; the receive loop: every iteration takes one frame
+    def recv_stub(I3, run, args, kwargs, node):
+        k = len([e for e in run.effects if e.name == "transport.recv"])
+        v = Sym(f"chunk{k}", "bytes")
+        run.assume_range(App("len", (v,), "int"), 1, INF)
+        run.effect("transport.recv", args, kwargs, node=node, ret=v)
+        return v
+
+    cfg3 = Config(stubs={"recv_fn": recv_stub}, loop_unroll=3)
+    cfg3.mark_loops = True
+    I3 = Interp(idx, cfg3)
+
+    def body3(run):
+        fb = new_obj(run, "_abnf:frame_buffer", "fb", recv=Sym("recv_fn", "func"), recv_buffer=new_list(run, [Sym("held", "bytes")]))
+        return I3.call(run, I3.getattr(run, fb, "recv_strict", None), [isym(run, "n", 0, 2 ** 64 - 1)], {}, None)
+
+    def rf_stub(I4, run, args, kwargs, node):
+        run.effect("recv_frame", (), node=node)
+        return new_obj(run, "_abnf:ABNF", "frame", opcode=isym(run, "op", 0, 15), data=Sym("fd", "bytes"), fin=isym(run, "fin", 0, 1))
+
+    cfg4 = Config(stubs=dict(BASE_STUBS, **{"_core:WebSocket.recv_frame": rf_stub, "_core:WebSocket.pong": lambda *a: NONE,
+                                            "_core:WebSocket.send_close": lambda *a: NONE,
+                                            "_abnf:continuous_frame.validate": lambda *a: NONE, "_abnf:continuous_frame.add": lambda *a: NONE,
+                                            "_abnf:continuous_frame.is_fire": lambda I4, run, a, k, n: Sym("fire", "bool"),
+                                            "_abnf:continuous_frame.extract": lambda I4, run, a, k, n: Tup((C(1), a[1]))}), loop_unroll=3)
+    cfg4.mark_loops = True
+    I4 = Interp(idx, cfg4)
+
+    def body4(run):
+        ws = mk_websocket(I4, run)
+        return I4.call(run, I4.getattr(run, ws, "recv_data_frame", None), [Sym("control_frame", "bool")], {}, None)
+
+    for q, I_, body_, consumer in (("_abnf:frame_buffer.recv_strict", I3, body3, "transport.recv"), ("_core:WebSocket.recv_data_frame", I4, body4, "recv_frame")):
+        outs = ctx.count_paths(I_.explore(body_))
+        bad = None
+        for o in outs:
+            names = [e.name for e in o.effects]
+            its = [i for i, n in enumerate(names) if n == "loop.iter"]
+            for k, s_ in enumerate(its):
+                end = its[k + 1] if k + 1 < len(its) else len(names)
+                last = k + 1 == len(its)
+                if consumer not in names[s_:end] and not (last and o.kind in ("return", "raise")):
+                    bad = bad or o
+        ctx.ob(f"{q}:every-iteration-consumes", bad is None and bool(outs), f"{len(outs)} paths" if bad is None else
+               f"a loop iteration of {q} neither takes input ({consumer}) nor leaves the loop", idx.loc(idx.func(q).node), {"path": path_text(bad)} if bad else None)
 
 
 @rule("R-C17-4", min_instances=10, title="explicit raise statements on the connect / receive paths name library exceptions (or re-raise, or refuse the caller's own URL)")
